@@ -41,6 +41,17 @@ func genCase(t *rapid.T) Case {
 		opts.Comm, opts.Partial, opts.MaxOps, opts.MaxValues = true, false, 10, 8
 		opts.LateWave = rapid.Bool().Draw(t, "latewave")
 	}
+	ragged := !crowded && rapid.IntRange(0, 5).Draw(t, "ragged") == 0
+	if ragged {
+		// one compute unit, rows of one to three full 256-item groups plus a partial one (1-3
+		// wavefronts), more groups than the unit holds at once, run times that differ from group to
+		// group: finished groups of different sizes leave holes that later groups are placed into
+		k := rapid.IntRange(1, 3).Draw(t, "rowgroups")
+		r := rapid.IntRange(1, 191).Draw(t, "rowtail")
+		rows := rapid.IntRange(8, 16).Draw(t, "rows")
+		opts.FixedGeo = &kgen.Geometry{Grid: [3]uint32{uint32(256*k + r), uint32(rows), 1}, WG: [3]uint16{256, 1, 1}}
+		opts.LDS, opts.MaxOps, opts.MaxValues = false, 12, 8
+	}
 	c.Prog = kgen.GenProgram(t, opts)
 	if c.GPUType == "mi300a" && rapid.IntRange(0, 2).Draw(t, "gfx9") > 0 {
 		// the encodings and the emulator of the architecture the MI300A model is shipped for;
@@ -48,7 +59,7 @@ func genCase(t *rapid.T) Case {
 		c.Prog.GFX9 = true
 		c.Prog.PackedIDs = rapid.Bool().Draw(t, "packed-ids")
 	}
-	if crowded {
+	if crowded || ragged {
 		c.CUPerSA, c.SAs = 1, 1
 		return c
 	}
